@@ -189,6 +189,95 @@ def c_gmm(ctx, case):
     ctx.stat_max("tasks per fit", ex.tasks_run)
 
 
+# ---------------------------------------------------------------------------- many rows
+
+def g_big(draw):
+    n = gen.choice(draw, [1025, 4097, 5000, 8193, 20000, 66000]) + gen.integer(draw, 0, 7)
+    cuts = sorted(set(gen.integer(draw, 1, n - 1) for _ in range(gen.integer(draw, 1, 4))))
+    chunks = [b - a for a, b in zip([0] + cuts, cuts + [n])]
+    return {"F": gen.integer(draw, 1, 3), "k": gen.integer(draw, 2, 3), "n": n, "scale": 10.0 ** gen.integer(draw, -2, 2),
+            "data_seed": gen.integer(draw, 0, 2**31 - 1), "sorted": gen.boolean(draw),
+            "chunks": chunks, "cap": gen.integer(draw, 1, 3), "thr": gen.choice(draw, [None, 1e-2]),
+            "which": gen.choice(draw, ["kmeans", "gmm"]), "sched": schedule(draw)}
+
+
+def _big_data(case):
+    """The rows are rebuilt from the case's seed (a 66000-row array does not belong in a replay file)."""
+    r = np.random.default_rng(int(case["data_seed"]))
+    F, k, n, scale = int(case["F"]), int(case["k"]), int(case["n"]), float(case["scale"])
+    centres = r.normal(0, 3, (k, F))
+    lab = r.integers(0, k, n)
+    if case["sorted"]:
+        lab = np.sort(lab)
+    X = scale * (centres[lab] + r.normal(0, 1.0, (n, F)))
+    init = X[r.choice(n, size=k, replace=False)] + scale * r.normal(0, 0.3, (k, F))
+    return X, init
+
+
+@REG.obligation("many_rows", g_big, quick=18, thorough=300, shard_size=3)
+def c_big(ctx, case):
+    """Thousands of rows (1e3 .. 7e4, so that any internal batching of a block is exercised): k-means / GMM on
+    the in-memory array, on a Dask array with a few large uneven chunks, and the definition (k-means criterion and
+    centroids after one step from NumPy) agree."""
+    from bob.learn.em import GMMMachine, KMeansMachine
+
+    X, init = _big_data(case)
+    n, k = X.shape[0], int(case["k"])
+    s = case["sched"]
+    sc = float(np.abs(X).max())
+    spread = float(np.abs(X - X.mean(axis=0)).max()) + 1e-300
+    ctx.note(max(case["chunks"]) > 4096 and len(case["chunks"]) >= 2, "n>%d" % (10 ** int(np.log10(n))),
+             "which:" + case["which"], "grouped" if case["sorted"] else "shuffled")
+    if case["which"] == "kmeans":
+        def mk():
+            return KMeansMachine(k, init_method=np.array(init, copy=True), max_iter=int(case["cap"]),
+                                 convergence_threshold=case["thr"])
+        a = mk().fit(X)
+        with sched.owned(s["order"], s["seed"], s["isolate"]):
+            d = mk().fit(darr(X, case["chunks"]))
+        # definition, first iteration
+        one = KMeansMachine(k, init_method=np.array(init, copy=True), max_iter=1, convergence_threshold=None).fit(X)
+        D = ((X[None, :, :] - init[:, None, :]) ** 2).sum(axis=2)
+        lab = D.argmin(axis=0)
+        srt = np.sort(D, axis=0)
+        if ((srt[1] - srt[0]) / np.maximum(srt[1], 1e-300)).min() < 1e-9:
+            ctx.discard("near-tie")
+        want_c = np.stack([X[lab == i].mean(axis=0) if (lab == i).any() else init[i] for i in range(k)])
+        ctx.close(one.average_min_distance, D.min(axis=0).mean(), "criterion of the first iteration vs definition",
+                  rtol=1e-9, atol=64 * EPS * sc * sc)
+        ctx.close(one.centroids_, want_c, "centroids after one iteration vs definition", rtol=1e-9, atol=1e-9 * spread)
+        ctx.close(d.centroids_, a.centroids_, "centroids (Dask vs in-memory)", rtol=1e-7, atol=1e-9 * spread)
+        ctx.close(d.average_min_distance, a.average_min_distance, "training criterion (Dask vs in-memory)", rtol=1e-7,
+                  atol=64 * EPS * sc * sc)
+        dv, dw = d.get_variances_and_weights_for_each_cluster(darr(X, case["chunks"]))
+        av, aw = a.get_variances_and_weights_for_each_cluster(X)
+        ctx.close(dw, aw, "cluster weights (Dask vs in-memory)", rtol=1e-9, atol=1e-12)
+        ctx.close(dv, av, "cluster variances (Dask vs in-memory)", rtol=1e-6, atol=64 * n * EPS * sc * sc)
+    else:
+        var = np.full_like(init, float(case["scale"]) ** 2)
+        p = {"C": k, "F": X.shape[1], "weights": np.full(k, 1.0 / k), "means": init, "variances": var, "floors": 1e-12 * var.min()}
+
+        def mk():
+            return sut.make_gmm(p, update_means=True, update_variances=True, update_weights=True,
+                                max_fitting_steps=int(case["cap"]), convergence_threshold=case["thr"])
+        a = mk().fit(X)
+        with sched.owned(s["order"], s["seed"], s["isolate"]):
+            d = mk().fit(darr(X, case["chunks"]))
+        pa, pd = sut.params_of(a), sut.params_of(d)
+        ctx.close(pd[0], pa[0], "weights (Dask vs in-memory)", rtol=1e-7, atol=1e-10)
+        ctx.close(pd[1], pa[1], "means (Dask vs in-memory)", rtol=1e-7, atol=1e-9 * sc)
+        ctx.close(pd[2], pa[2], "variances (Dask vs in-memory)", rtol=1e-6, atol=64 * n * EPS * sc * sc)
+        # the whole-set statistics equal the sum of the statistics of two halves (batching inside a block)
+        g = sut.make_gmm(p)
+        whole, h1, h2 = g.acc_stats(X), g.acc_stats(X[: n // 2]), g.acc_stats(X[n // 2:])
+        ctx.close(whole.n, h1.n + h2.n, "n of the whole vs sum of halves", rtol=1e-9, atol=1e-9)
+        ctx.close(whole.log_likelihood, h1.log_likelihood + h2.log_likelihood, "log-likelihood of the whole vs sum of halves",
+                  rtol=1e-10, atol=1e-9)
+        ctx.close(whole.sum_pxx, h1.sum_pxx + h2.sum_pxx, "sum_pxx of the whole vs sum of halves", rtol=1e-9,
+                  atol=64 * n * EPS * sc * sc)
+        ctx.check(int(whole.t) == n, "t of the whole is %r" % (whole.t,))
+
+
 # ---------------------------------------------------------------------------- ISV / JFA from arrays
 
 def g_fa(draw):
